@@ -203,7 +203,7 @@ func randomLayout(rnd *rand.Rand, cl *fakecluster.Cluster) string {
 
 // startSUT starts a SUT host for a check, with fast slot-refresh timers.
 func startSUT(r *ev.Run, race bool, freqMs, minRateMs int64) (*sutc.SUT, error) {
-	s, err := sutc.Start(ev.Root+"/run/"+r.ID, race)
+	s, err := sutc.Start(ev.RunDir(r.ID), race)
 	if err != nil {
 		return nil, err
 	}
